@@ -660,6 +660,11 @@ func (p *Process) handleOutput(pipe io.ReadCloser, output string, handler func(m
 		line, err := reader.ReadString('\n')
 		if err != nil {
 			if err == io.EOF {
+				// the last line may end without a newline: ReadString returns it together with io.EOF
+				if len(line) > 0 {
+					p.checkElevatedProcOutput(line)
+					handler(line)
+				}
 				break
 			}
 			var pathErr *os.PathError
